@@ -316,6 +316,9 @@ func c11Step(r *fw.RNG, h *c11Heap) (src, opname, sig string) {
 		}
 		i := r.Range(0, v.n)
 		j := r.Range(i, v.n)
+		if r.Chance(1, 4) {
+			i, j = 0, v.n // the whole range is a view like any other
+		}
 		kind := strings.TrimPrefix(op, "slice-")
 		return setq(c11View(v, kind, i, j, "view-of-"+v.prov), fmt.Sprintf("(slice '%s %s %d %d)", kind, n, i, j)), op, op + "|" + v.kind + "|" + v.prov
 	case "cdr", "rest":
@@ -585,7 +588,10 @@ func c11Step(r *fw.RNG, h *c11Heap) (src, opname, sig string) {
 		if v == nil || v.n == 0 {
 			return "", "", ""
 		}
-		j := r.Range(0, v.n-1)
+		j := r.Range(0, v.n)
+		if r.Chance(1, 3) {
+			j = v.n // a view of the whole range
+		}
 		cs, txt := ints(r.Range(1, 2))
 		nv := c11Seq("vector", append(c11CopyCells(v.elems()[:j]), cs...), "append!-of-view")
 		return setq(nv, fmt.Sprintf("(append! (slice 'vector %s 0 %d)%s)", n, j, txt)), op, op + "|" + v.kind + "|" + v.prov
